@@ -8,7 +8,9 @@ Oracle P (independent of the model): `ref_choose`, a direct transcription of the
 """
 import itertools
 import json
+import random
 import sys
+import zlib
 
 from harness import framework, lean
 from harness import dispatch_common as dc
@@ -26,8 +28,14 @@ def run_case(drv, cc, preds, history, want_spec=True):
     """Returns list of (dir, type key, I, M, S, P, terms) for every probe."""
     impl = Impl(preds)
     impl.make(cc)
+    # uses of the converter between the registrations (results ignored): "after any sequence of registrations" includes
+    # sequences in which the types were already used; derived from the history text, so a replay repeats them
+    wr = random.Random(zlib.crc32(repr([dc.describe(o) for o in history]).encode()))
     for op in history:
         impl.do(op)
+        if wr.random() < 0.3:
+            for o in dc.probe_ops(0, wr.choice(DIRS), cc):
+                impl.do(o)
     full = list(history)
     for d in DIRS:
         full += dc.probe_ops(0, d, cc)
@@ -149,7 +157,9 @@ def run(chk: framework.Check):
         cc = gen_cfg(rng)
         preds = dc.gen_preds(rng)
         cnt = itertools.count(1)
-        history = [dc.gen_reg(rng, 0, rng.choice(DIRS), preds, lambda: next(cnt)) for _ in range(rng.randint(0, max_ops))]
+        history = []
+        for _ in range(rng.randint(0, max_ops)):
+            history.append(dc.gen_reg(rng, 0, rng.choice(DIRS), preds, lambda: next(cnt), prev=history))
         check_case(chk, drv, cc, preds, history, corr_fail, stats)
     if corr_fail and not stats["oracle_fail"]:
         for case, r, where in corr_fail[:5]:
